@@ -32,7 +32,19 @@ def gen_one(r, i, tier):
 
     a = push(("new", spec)); ops.extend(base.fill_ops(a, s))
     c = r.random()
-    if c < 0.2:
+    if i % 15 == 7:
+        # merged Deviates of one repeated non-dyadic value: the variance comes out as round-off residue
+        # (possibly a tiny NEGATIVE number), which must survive the round trip like any other number
+        v = r.choice([2.3, 1.1, 0.7, 10.1])
+        dev = {"k": "Deviate", "q": {"name": None, "id": 0, "e": ["f", 0]}}
+        spec = dev if r.random() < 0.5 else {"k": "Select", "q": {"name": None, "id": 0, "e": ["<", ["f", 1], ["c", 1.0]]}, "cut": dev}
+        ops[:] = []
+        a = push(("new", spec))
+        ops.extend([("fill", a, [v, 0.5, 0.0, "a", False], 1.0) for _ in range(r.randint(2, 3))])
+        b = push(("new", spec))
+        ops.extend([("fill", b, [v, 0.5, 0.0, "a", False], 1.0) for _ in range(r.randint(3, 6))])
+        a = push(("add", a, b))
+    elif c < 0.2:
         b = push(("new", spec)); ops.extend(base.fill_ops(b, s[:2])); a = push(("add", a, b))
     elif c < 0.35:
         a = push(("mul", a, r.choice([0.5, 2.0])))
